@@ -48,7 +48,14 @@ def main():
     write = "--no-write" not in sys.argv
     props = [c["property_id"] for c in json.load(open(os.path.join(VERIF, "MANIFEST.json")))["checks"]]
     seeds = sorted(d for d in os.listdir(SEEDED) if os.path.isfile(os.path.join(SEEDED, d, "patch.diff")))
+    only = next((a.split("=", 1)[1] for a in sys.argv if a.startswith("--only=")), None)  # e.g. --only=-f : the seeds of one round
     res = {}
+    if only:
+        seeds = [d for d in seeds if only in d]
+        try:
+            res = json.load(open(os.path.join(SEEDED, "MATRIX.json")))
+        except OSError:
+            res = {}
     with cf.ThreadPoolExecutor(max_workers=8) as ex:
         for sid, out in ex.map(lambda s: run_seed(s, props), seeds):
             res[sid] = out
